@@ -26,6 +26,7 @@ Definition dec_aop (v : value) : option aop :=
   | VL [VI 9; VB p; VI perm] => Some (AWriteRedirect p (as_bool perm))
   | VL [VI 10; VB _; VI c; VB rendered] => Some (AWriteJson rendered c)
   | VL [VI 11] => Some AAvail
+  | VL [VI 12] => Some (ANote (VI 77))         (* a bytesWritten listener subscribes at this point: see family socklate *)
   | _ => None
   end.
 
